@@ -223,6 +223,68 @@ def main():
     except MemoryError:
         res.notes.append("large-system check skipped: not enough memory")
 
+    # ---------- a simulation with Lagrange conditions (beam connection): structural block of K, C, M, repeated reads ----------
+    try:
+        from EasyFEA import Mesher as _Mesher
+        from EasyFEA.Geoms import Line as _Line, Point as _Pt, Domain as _Dom
+        for bdim, bet in ((2, "SEG2"), (3, "SEG3")):
+            sect = _Mesher().Mesh_2D(_Dom(_Pt(), _Pt(0.5, 0.25)))
+            pA, pB, pC = _Pt(0, 0, 0), _Pt(2.0, 1.0, 0.5 if bdim == 3 else 0.0), _Pt(4.0, 1.0, 0.0)
+            beams_ = [Models.Beam.Isotropic(bdim, _Line(pA, pB, 1.0), sect, 1000.0, 0.25), Models.Beam.Isotropic(bdim, _Line(pB, pC, 1.0), sect, 1000.0, 0.25)]
+            bm = _Mesher().Mesh_Beams(beams_, elemType=ElemType(bet))
+            bs = Simulations.Beam(bm, Models.Beam.BeamStructure(beams_))
+            bs.rho = 2.0
+            unk_ = bs.Get_unknowns()
+            bs.add_dirichlet(bs.mesh.Nodes_Point(pA), [0.0] * len(unk_), unk_)
+            bs.add_connection_fixed(bs.mesh.Nodes_Point(pB))
+            dofn_ = bs.Get_dof_n()
+            ndof_ = bs.mesh.Nn * dofn_
+            identb = dict(sim="Beam", dim=bdim, elemType=bet, lagrange=True)
+            for read in ("Get_K_C_M_F", "Get_K_C_M_F again", "Assembly", "after beam.E changed"):
+                if read == "after beam.E changed":
+                    beams_[0].E = 1500.0
+                mats_ = bs.Assembly(bs.problemType) if read == "Assembly" else bs.Get_K_C_M_F()
+                loc_ = bs.Construct_local_matrix_system(bs.problemType)
+                res.case(("lagrange-beam", bdim, read))
+                res.count("lagrange-beam")
+                for slot, nm in ((0, "K"), (2, "M")):
+                    data_ = [(g_, np.asarray(X_[slot])) for g_, X_ in loc_.items() if X_[slot] is not None]
+                    if not data_:
+                        continue
+                    want_ = dense_scatter(data_, dofn_, ndof_, True).real
+                    got_ = mats_[slot].toarray()[:ndof_, :ndof_]
+                    if np.abs(got_ - want_).max() > 1e-9 * (1 + np.abs(want_).max()):
+                        res.fail(f"assembly with Lagrange conditions slot={nm}", f"{read}: the structural block of {nm} differs from the scatter-add of the element arrays by {np.abs(got_ - want_).max():.3e} (relative to {np.abs(want_).max():.3e})", dict(identb, read=read))
+                        break
+    except Exception as ex:  # noqa: BLE001
+        res.fail("assembly with Lagrange conditions raises", f"{type(ex).__name__}: {str(ex)[:200]}", dict(sim="Beam"))
+
+    # ---------- the other public assembly entry point: BiLinearForm.Assemble, also for non-symmetric forms ----------
+    try:
+        from EasyFEA.FEM import Field as _Field, BiLinearForm as _BLF
+        for fet, fdofn in (("TRI3", 1), ("QUAD4", 2)):
+            fmesh = M.mesh_of(fet)
+            fg = fmesh.groupElem
+            fld = _Field(fg, fdofn)
+            bvec = np.array([2.0, -1.0])
+            if fdofn == 1:
+                form_ = _BLF(lambda u, v: u.grad.dot(v.grad) + (u.grad.dot(bvec)) * v)          # diffusion + convection: not symmetric
+            else:
+                Acoup = np.array([[0.0, 1.0], [0.0, 0.0]])
+                form_ = _BLF(lambda u, v: u.dot(v) + (u @ Acoup).dot(v))                          # x-y coupling: not symmetric
+            Ke_ = np.asarray(form_.Integrate_e(fld))
+            Ke_ = Ke_.reshape(Ke_.shape[0], Ke_.shape[1], Ke_.shape[2])
+            want_ = dense_scatter([(fg, Ke_)], fdofn, fmesh.Nn * fdofn, True).real
+            got_ = form_.Assemble(fld).toarray()
+            res.case(("form-assemble", fet, fdofn))
+            res.count("form-assemble")
+            if np.abs(Ke_ - np.swapaxes(Ke_, 1, 2)).max() < 1e-12:
+                res.notes.append("form-assemble: the chosen form came out symmetric")
+            if got_.shape != want_.shape or np.abs(got_ - want_).max() > 1e-10 * (1 + np.abs(want_).max()):
+                res.fail("BiLinearForm.Assemble is not the scatter-add of Integrate_e", f"non-symmetric form on {fet} (dof_n = {fdofn}): max difference {np.abs(got_ - want_).max():.3e}; against the transpose {np.abs(got_ - want_.T).max():.3e}", dict(elemType=fet, dof_n=fdofn))
+    except Exception as ex:  # noqa: BLE001
+        res.fail("BiLinearForm.Assemble raises", f"{type(ex).__name__}: {str(ex)[:200]}", dict(entry="BiLinearForm.Assemble"))
+
     # ---------- renumbering of a real problem ----------
     for rep in range(2 if args.tier == "quick" else 6):
         et = rng.choice(["TRI3", "QUAD4", "TRI6", "TETRA4"])
